@@ -985,12 +985,63 @@ theorem mid_dropAdps {s : St} (h : Mid s) (d : List Nat) : Mid (dropAdps s d) :=
   intro a ha
   exact c.adpPeriod a (List.mem_filter.mp ha).1
 
+theorem findPeriod_mem {s : St} {mpsPk : Nat} {sp : PSpec} {q : Period}
+    (h : findPeriod s mpsPk sp = some q) : q ∈ s.periods := by
+  unfold findPeriod at h
+  split at h <;> exact (find?_pk_mem h).1
+
+/-- the Period table after `upsertPeriod` -/
+theorem upsertPeriod_spec {s : St} (c : Core0 s) (mpsPk : Nat) (hm : mpsPk ∈ s.mps.map (·.pk))
+    (sp : PSpec) (hsp : sp.stream ∈ s.streams.map (·.pk)) (ex : Option Period)
+    (hex : ∀ q, ex = some q → q ∈ s.periods) :
+    ((upsertPeriod s mpsPk sp ex).2.map (·.pk)).Nodup ∧
+    (∀ p ∈ (upsertPeriod s mpsPk sp ex).2, p.parent ∈ s.mps.map (·.pk)) ∧
+    (∀ p ∈ (upsertPeriod s mpsPk sp ex).2, p.stream ∈ s.streams.map (·.pk)) ∧
+    (∀ k ∈ s.periods.map (·.pk), k ∈ (upsertPeriod s mpsPk sp ex).2.map (·.pk)) ∧
+    (upsertPeriod s mpsPk sp ex).1 ∈ (upsertPeriod s mpsPk sp ex).2.map (·.pk) := by
+  cases ex with
+  | some q =>
+    have hqm := hex q rfl
+    simp only [upsertPeriod]
+    have hpk := map_upd_field (·.pk) (fun x : Period => x.pk == q.pk)
+      (fun x => { x with pid := sp.pid, stream := sp.stream, ordering := sp.ordering }) s.periods
+      (fun _ => rfl)
+    refine ⟨?_, ?_, ?_, ?_, ?_⟩
+    · simp only [hpk]; exact c.periodPk
+    · exact forall_map_upd (fun p : Period => p.parent ∈ s.mps.map (fun x : Mps => x.pk))
+        (fun x : Period => x.pk == q.pk)
+        (fun x => { x with pid := sp.pid, stream := sp.stream, ordering := sp.ordering }) _
+        c.periodParent (fun _ h => h)
+    · intro p hp
+      obtain ⟨x, hx, rfl⟩ := List.mem_map.mp hp
+      split
+      · exact hsp
+      · exact c.periodStream x hx
+    · intro k hk; simp only [hpk]; exact hk
+    · simp only [hpk]; exact List.mem_map.mpr ⟨q, hqm, rfl⟩
+  | none =>
+    simp only [upsertPeriod]
+    refine ⟨nodup_map_snoc _ c.periodPk (fresh_not_mem _), ?_, ?_, ?_, ?_⟩
+    · intro p hp
+      simp only [List.mem_append, List.mem_singleton] at hp
+      rcases hp with hp | rfl
+      · exact c.periodParent p hp
+      · exact hm
+    · intro p hp
+      simp only [List.mem_append, List.mem_singleton] at hp
+      rcases hp with hp | rfl
+      · exact c.periodStream p hp
+      · exact hsp
+    · intro k hk
+      simp only [List.map_append, List.mem_append]
+      exact Or.inl hk
+    · simp
+
 theorem mid_processPeriod {s : St} (h : Mid s) (mpsPk : Nat) (hm : mpsPk ∈ s.mps.map (·.pk))
     (sp : PSpec) {s' : St} {d : List Nat} (hp : processPeriod s mpsPk sp = some (s', d)) :
     Mid s' ∧ s'.mps = s.mps := by
   obtain ⟨c, t⟩ := h
   unfold processPeriod at hp
-  simp only at hp
   split at hp
   · simp at hp
   · next st hst =>
@@ -1006,57 +1057,16 @@ theorem mid_processPeriod {s : St} (h : Mid s) (mpsPk : Nat) (hm : mpsPk ∈ s.m
           obtain ⟨hp, _⟩ := hp
           subst hp
           refine ⟨⟨?_, tref_of_files t rfl rfl⟩, rfl⟩
-          -- the Period row
-          generalize hex : (match sp.pk with
-            | some p => s.periods.find? (fun x => x.pk == p)
-            | none => s.periods.find? (fun q => q.pid == sp.pid && q.parent == mpsPk)) = existing
-          cases existing with
-          | some q =>
-            have hqm : q ∈ s.periods := by
-              cases hpk : sp.pk with
-              | some p => rw [hpk] at hex; exact (find?_pk_mem hex).1
-              | none => rw [hpk] at hex; exact (find?_pk_mem hex).1
-            simp only
-            have hpk := map_upd_field (·.pk) (fun x : Period => x.pk == q.pk)
-              (fun x => { x with pid := sp.pid, stream := sp.stream, ordering := sp.ordering }) s.periods
-              (fun _ => rfl)
-            obtain ⟨a1, a2⟩ := syncTracks_spec q.pk sp.tracks s.adps c.adpPk
-            refine { c with periodPk := ?_, adpPk := a1, periodParent := ?_, periodStream := ?_, adpPeriod := ?_ }
-            · simp only [hpk]; exact c.periodPk
-            · exact forall_map_upd (fun p : Period => p.parent ∈ s.mps.map (fun x : Mps => x.pk))
-                (fun x : Period => x.pk == q.pk)
-                (fun x => { x with pid := sp.pid, stream := sp.stream, ordering := sp.ordering }) _
-                c.periodParent (fun _ h => h)
-            · intro p hp
-              obtain ⟨x, hx, rfl⟩ := List.mem_map.mp hp
-              split
-              · exact hsp
-              · exact c.periodStream x hx
-            · intro a ha
-              simp only [hpk]
-              rcases a2 a ha with h' | h'
-              · exact c.adpPeriod a h'
-              · rw [h']; exact List.mem_map.mpr ⟨q, hqm, rfl⟩
-          | none =>
-            simp only
-            obtain ⟨a1, a2⟩ := syncTracks_spec (fresh (s.periods.map (·.pk))) sp.tracks s.adps c.adpPk
-            refine { c with periodPk := nodup_map_snoc _ c.periodPk (fresh_not_mem _), adpPk := a1,
-                            periodParent := ?_, periodStream := ?_, adpPeriod := ?_ }
-            · intro p hp
-              simp only [List.mem_append, List.mem_singleton] at hp
-              rcases hp with hp | rfl
-              · exact c.periodParent p hp
-              · exact hm
-            · intro p hp
-              simp only [List.mem_append, List.mem_singleton] at hp
-              rcases hp with hp | rfl
-              · exact c.periodStream p hp
-              · exact hsp
-            · intro a ha
-              simp only [List.map_append, List.map_cons, List.map_nil, List.mem_append, List.mem_singleton]
-              rcases a2 a ha with h' | h'
-              · exact Or.inl (c.adpPeriod a h')
-              · exact Or.inr h'
+          obtain ⟨u1, u2, u3, u4, u5⟩ := upsertPeriod_spec c mpsPk hm sp hsp (findPeriod s mpsPk sp)
+            (fun q hq => findPeriod_mem hq)
+          obtain ⟨a1, a2⟩ := syncTracks_spec (upsertPeriod s mpsPk sp (findPeriod s mpsPk sp)).1
+            sp.tracks s.adps c.adpPk
+          refine { c with periodPk := u1, adpPk := a1, periodParent := u2, periodStream := u3,
+                          adpPeriod := ?_ }
+          intro a ha
+          rcases a2 a ha with h' | h'
+          · exact u4 _ (c.adpPeriod a h')
+          · rw [h']; exact u5
 
 theorem mid_processPeriods (defer : Bool) (mpsPk : Nat) (ps : List PSpec) :
     ∀ (s : St) (doomed : List Nat), Mid s → mpsPk ∈ s.mps.map (·.pk) →
@@ -1094,12 +1104,14 @@ theorem inv_addMps {s : St} (hs : Inv s) (name title : String) (ps : List PSpec)
     · next s2 hp =>
       apply inv_commit' hs
       obtain ⟨⟨c, t⟩, _⟩ := hs
-      refine mid_processPeriods false _ ps _ [] ⟨?_, tref_of_files t rfl rfl⟩ ?_ s2 hp
-      · refine { c with mpsPk := nodup_map_snoc _ c.mpsPk (fresh_not_mem _), periodParent := ?_ }
+      have hmid : Mid { s with mps := s.mps ++
+          [{ pk := fresh (s.mps.map (fun x : Mps => x.pk)), name := name, title := title }] } := by
+        refine ⟨?_, tref_of_files t rfl rfl⟩
+        refine { c with mpsPk := nodup_map_snoc _ c.mpsPk (fresh_not_mem _), periodParent := ?_ }
         intro p hp
         simp only [List.map_append, List.mem_append]
         exact Or.inl (c.periodParent p hp)
-      · simp
+      exact mid_processPeriods false _ ps _ [] hmid (by simp) s2 hp
 
 theorem findMps_mem {s : St} {n : String} {m : Mps} (h : findMps s n = some m) : m ∈ s.mps :=
   (find?_pk_mem h).1
@@ -1120,12 +1132,15 @@ theorem inv_editMps {s : St} (hs : Inv s) (urlName : String) (bodyPk : Option Na
         obtain ⟨⟨c, t⟩, _⟩ := hs
         have hpk := map_upd_field (·.pk) (fun x : Mps => x.pk == m.pk)
           (fun x => { x with name := name, title := title }) s.mps (fun _ => rfl)
-        refine mid_processPeriods true _ ps _ [] ⟨?_, tref_of_files t rfl rfl⟩ ?_ s2 hp
-        · refine { c with mpsPk := ?_, periodParent := ?_ }
+        have hmid : Mid { s with mps := s.mps.map (fun x =>
+            if x.pk == m.pk then { x with name := name, title := title } else x) } := by
+          refine ⟨?_, tref_of_files t rfl rfl⟩
+          refine { c with mpsPk := ?_, periodParent := ?_ }
           · simp only [hpk]; exact c.mpsPk
           · simp only [hpk]; exact c.periodParent
-        · simp only [hpk]
-          exact List.mem_map.mpr ⟨m, findMps_mem hm, rfl⟩
+        refine mid_processPeriods true _ ps _ [] hmid ?_ s2 hp
+        simp only [hpk]
+        exact List.mem_map.mpr ⟨m, findMps_mem hm, rfl⟩
 
 /-! ### every operation -/
 
